@@ -18,12 +18,21 @@ fn trap_block() -> impl Strategy<Value = Vec<HOp>> {
         0u8..3,
         any::<u16>(),
         gen::line_specs(3),
-        proptest::bool::weighted(0.4),
+        proptest::bool::weighted(0.5),
+        // the discarding op: aimed at the very file that holds the pending AI lines, or any
+        prop_oneof![5 => (0u8..4).prop_map(Some), 4 => Just(None)],
         destructive_op(),
         gen::line_specs(3),
         proptest::bool::weighted(0.5),
     )
-        .prop_map(|(ai, file, pos, ai_lines, commit_other_first, d, human_lines, replace)| {
+        .prop_map(|(ai, file, pos, ai_lines, commit_other_first, aimed, d, human_lines, replace)| {
+            let d = match aimed {
+                Some(0) => HOp::CheckoutPath { file },
+                Some(1) => HOp::RestoreWorktree { file },
+                Some(2) => HOp::ResetHard { back: 0 },
+                Some(_) => HOp::Stash,
+                None => d,
+            };
             let mut v = vec![HOp::Edit { actor: ai, file, edit: Edit::Insert { pos, lines: ai_lines } }];
             if commit_other_first {
                 // commit some other file only, so that the AI lines stay pending (INITIAL)
